@@ -70,10 +70,16 @@ def make_world(wid, graph, rng, *, kinds='class', hooks='all', faults=None,
             hk = ['setUp', 'tearDown', 'testSetUp', 'testTearDown']
         else:
             hk = []
-            if rng.random() < 0.75:
+            r = rng.random()
+            if r < 0.7:
                 hk += ['setUp', 'tearDown']
-            if rng.random() < 0.6:
+            elif r < 0.78:
+                hk += [rng.choice(['setUp', 'tearDown'])]
+            r = rng.random()
+            if r < 0.5:
                 hk += ['testSetUp', 'testTearDown']
+            elif r < 0.75:
+                hk += [rng.choice(['testSetUp', 'testTearDown'])]
         spec = {'kind': kind, 'bases': bases, 'hooks': hk}
         if faults:
             f = faults(lname) if callable(faults) else faults.get(lname, {})
